@@ -217,6 +217,7 @@ def drive : List String → String
         else match a.splitOn ":" with
           | ["send", i] => i.toNat?.map .send
           | ["occ", i] => i.toNat?.map .occupy
+          | ["sstop", _, _] => some .stop            -- stop() while a broadcast is on its way: for the model, a stop
           | ["bad", i] => i.toNat?.map .occupy      -- a configured port that can never be bound: as if somebody else held it for good
           | ["rel", i] => i.toNat?.map .release
           | _ => none
@@ -227,7 +228,8 @@ def drive : List String → String
     | none => "bad-arg"
   | "clife" :: acts =>
     let parse (a : String) : Option ClientAct :=
-      if a == "cok" then some .connectOk else if a == "cref" then some .connectRefused else if a == "op" then some .opOk
+      if a == "cok" then some .connectOk else if a == "cref" || a == "withref" then some .connectRefused
+      else if a == "withop" then some (.withBody false) else if a == "op" then some .opOk
       else if a == "opx" || a == "opeof" then some .opRaises else if a == "disc" then some .disconnect else if a == "with" then some (.withBody false)
       else if a.startsWith "withx" then some (.withBody true) else none     -- withx, withx:TimeoutError, …: whatever the body raises
     match acts.mapM parse with
